@@ -395,9 +395,11 @@ def lru_harness(nops):
         val = [z3.IntVal(-1), z3.IntVal(-1)]
         ok = [z3.BoolVal(False), z3.BoolVal(False)]
         ops = []
+        kterms = []
         for i in range(nops):
             is_set = z3.Bool('is_set%d' % i)
             k = z3.Int('k%d' % i)
+            kterms.append(k)
             ctx.assume(z3.And(k >= 0, k < 3))
             vv = z3.IntVal(100 + i)
             hit0 = z3.And(ok[0], s[0] == k)
@@ -416,11 +418,13 @@ def lru_harness(nops):
                 exp_val = z3.If(hit0, val[0], val[1])
                 ctx.stats.obligations += 1
                 if got is None:
-                    if ctx.sat(exp_hit) == 'sat':
-                        return dict(bad='get missed a present key', ops=len(ops))
+                    r, m = ctx.sat_model(exp_hit)
+                    if r == 'sat':
+                        return dict(bad='get missed a present key', ops=_ops(m, ops))
                 else:
-                    if ctx.sat(z3.Not(z3.And(exp_hit, got.t == exp_val))) == 'sat':
-                        return dict(bad='get returned a wrong/evicted value', ops=len(ops))
+                    r, m = ctx.sat_model(z3.Not(z3.And(exp_hit, got.t == exp_val)))
+                    if r == 'sat':
+                        return dict(bad='get returned a wrong/evicted value', ops=_ops(m, ops))
                 # a hit on slot 1 makes it most recent
                 ns = [z3.If(hit1, s[1], s[0]), z3.If(hit1, s[0], s[1])]
                 nv = [z3.If(hit1, val[1], val[0]), z3.If(hit1, val[0], val[1])]
@@ -433,10 +437,36 @@ def lru_harness(nops):
             present = any(bool(SBool(kk.t == kv)) for kk in list(cache._dict.keys()))
             exp = z3.Or(z3.And(ok[0], s[0] == kv), z3.And(ok[1], s[1] == kv))
             ctx.stats.obligations += 1
-            if ctx.sat(exp != z3.BoolVal(present)) == 'sat':
-                return dict(bad='presence of key differs from LRU reference', ops=nops)
-        return dict(bad=None, ops=nops)
+            r, m = ctx.sat_model(exp != z3.BoolVal(present))
+            if r == 'sat':
+                return dict(bad='presence of key differs from LRU reference', ops=_ops(m, ops))
+        return dict(bad=None, ops=None)
     return h
+
+
+def _ops(m, ops):
+    return [(kind, model_value(m, k)) for kind, k in ops]
+
+
+def lru_concrete(ops, size=2):
+    """Real LRUCache vs a plain-Python least-recently-used reference."""
+    from bert_e.lib.lru_cache import LRUCache
+    cache = LRUCache(size=size)
+    ref = []                       # [(key, value)], most recent last
+    for i, (kind, k) in enumerate(ops):
+        if kind == 'set':
+            cache.set(k, 100 + i)
+            ref = [(a, b) for a, b in ref if a != k]
+            ref.append((k, 100 + i))
+            ref = ref[-size:]
+        else:
+            got = cache.get(k, None)
+            hit = [b for a, b in ref if a == k]
+            if (got is None) != (not hit) or (hit and got != hit[0]):
+                return True
+            if hit:
+                ref = [(a, b) for a, b in ref if a != k] + [(k, hit[0])]
+    return sorted(cache._dict.keys()) != sorted(a for a, b in ref)
 
 
 # ---------------------------------------------------------------------------
@@ -451,6 +481,9 @@ def replay(data):
         return st == 'SUCCESSFUL' and not agg_expected_possible(data['n'], data['vals'])
     if data['part'] == 'cache':
         return data['label'] in cache_concrete(data['kind'], data['vals'])
+    if data['part'] == 'lru':
+        ops = [tuple(o) for o in data['ops']]
+        return lru_concrete(ops) or any(lru_concrete(ops + [('set', 9), ('get', k)]) for k in (0, 1, 2))
     return False
 
 
@@ -560,5 +593,10 @@ def check(rep):
     rep.add_stats(st, 'LRU size 2, %d ops' % nops)
     for _, r in results:
         if r['bad']:
-            rep.cexs.append(Cex('C17', 'LRU: ' + r['bad'], dict(part='lru'), False, r['bad']))
+            ok = lru_concrete(r['ops'])
+            if not ok:
+                # the divergence may need one more access to become observable
+                ok = any(lru_concrete(r['ops'] + [('set', 9), ('get', k)]) for k in (0, 1, 2))
+            rep.cexs.append(Cex('C17', 'LRU: ' + r['bad'], dict(part='lru', ops=r['ops']), ok,
+                                '%s after %s' % (r['bad'], r['ops'])))
             break
